@@ -246,6 +246,167 @@ def register(w):
         raises=set(), props=["C02", "C12"], deep_feasibility=True, witnesses=["C02_transpose_dag_family"],
     ))
 
+    # ---- the forest collector (several source transposes): same closure argument, a set of transposes instead of one
+    def inv_collect_forest(lc):
+        ex = lc.ex
+        h = H(ex)
+        nodes, start = lc["nodes"], lc["start_value"].term
+        E, TN, visited, wl = lc["elementwise_nodes"], lc["transpose_nodes"], lc["visited_values"], lc["worklist"]
+        if not (isinstance(E, VSet) and isinstance(TN, VSet) and isinstance(visited, VSet) and isinstance(wl, VSeq)):
+            raise OutOfSubset("collector variables have unexpected kinds")
+        e, j, v, m, k = z3.Const("e!cf", N), z3.Int("j!cf"), z3.Const("v!cf", V), z3.Const("m!cf", N), z3.Int("k!cf")
+        ins = ex.heap_arrays(NODE, "inputs")
+        x = sel(sel(ins[0], e), j)
+        queued = lambda val: z3.Exists([k], z3.And(0 <= k, k < wl.length, sel(wl.arrs[0], k) == val))  # noqa: E731
+        made = lambda val: z3.Exists([m], z3.And(z3.Or(sel(E.arr, m), sel(TN.arr, m)), GM_produces(ex, m, val)))  # noqa: E731
+        return [("length", wl.length >= 0),
+                ("sources_are_transposes_of_the_node_list", z3.ForAll([e], z3.Implies(sel(TN.arr, e), z3.And(h.op(e) == z3.StringVal("Transpose"), h.in_seq(nodes, e))))),
+                ("collected_nodes_are_elementwise_nodes_of_the_node_list", z3.ForAll([e], z3.Implies(sel(E.arr, e), z3.And(is_ew(h.op(e)), h.in_seq(nodes, e))))),
+                ("inputs_of_collected_nodes_are_constant_visited_or_queued", z3.ForAll([e, j], z3.Implies(z3.And(sel(E.arr, e), 0 <= j, j < sel(ins[1], e)),
+                                                                                                   z3.Or(x == null_of(VALUE), scalar_const(x, hv(ex)), sel(visited.arr, x), queued(x))))),
+                ("visited_values_are_constant_or_produced_inside", z3.ForAll([v], z3.Implies(sel(visited.arr, v), z3.Or(scalar_const(v, hv(ex)), made(v))))),
+                ("start_value_is_visited_or_queued", z3.Or(sel(visited.arr, start), queued(start)))]
+
+    def post_collect_forest(c: Ctx):
+        r = c.result
+        if isinstance(r, VNone):
+            return z3.BoolVal(True)
+        ex = c.ex
+        TN, E = r.items
+        h = H(ex)
+        nodes, start = c["nodes"], c["start_value"].term
+        e, j, m = z3.Const("e!pf", N), z3.Int("j!pf"), z3.Const("m!pf", N)
+        ins = ex.heap_arrays(NODE, "inputs")
+        x = sel(sel(ins[0], e), j)
+        made = lambda val: z3.Exists([m], z3.And(z3.Or(sel(E.arr, m), sel(TN.arr, m)), GM_produces(ex, m, val)))  # noqa: E731
+        return z3.And(
+            z3.Exists([e], sel(TN.arr, e)),
+            z3.ForAll([e], z3.Implies(sel(TN.arr, e), z3.And(h.op(e) == z3.StringVal("Transpose"), h.in_seq(nodes, e)))),
+            z3.ForAll([e], z3.Implies(sel(E.arr, e), z3.And(is_ew(h.op(e)), h.in_seq(nodes, e)))),
+            z3.Or(scalar_const(start, hv(ex)), made(start)),
+            z3.ForAll([e, j], z3.Implies(z3.And(sel(E.arr, e), 0 <= j, j < sel(ins[1], e)), z3.Or(x == null_of(VALUE), scalar_const(x, hv(ex)), made(x)))))
+
+    w.add_contract(Contract(
+        f"{MO}:_collect_transpose_elementwise_forest", params={"nodes": Seq(Ref(NODE)), "start_value": Ref(VALUE)}, ret=Opt(Tup(SetT(Ref(NODE)), SetT(Ref(NODE)))),
+        ensures=[("closed_elementwise_dag_below_a_set_of_transposes", post_collect_forest)],
+        loops={0: LoopSpec(invariant=inv_collect_forest, heap_unchanged=True, label="worklist"), 1: LoopSpec(invariant=inv_collect_inputs, heap_unchanged=True, label="inputs")},
+        local_types={"worklist": Seq(Ref(VALUE)), "elementwise_nodes": SetT(Ref(NODE)), "transpose_nodes": SetT(Ref(NODE)), "visited_values": SetT(Ref(VALUE))},
+        raises=set(), props=["C02", "C12"], deep_feasibility=True, witnesses=["C02_transpose_dag_family"],
+    ))
+
+    # ---- _transpose_reads_from(nodes, transpose, members): False only if no member (of the node list) produces the transpose's source
+    def post_reads_from(c: Ctx):
+        ex = c.ex
+        t, mem, nodes = c["transpose"].term, c["members"], c["nodes"]
+        src = in0(ex, t)
+        m = z3.Const("m!rf2", N)
+        h = H(ex)
+        return z3.Implies(z3.Not(c.result.term), z3.Or(src == null_of(VALUE), z3.ForAll([m], z3.Implies(z3.And(sel(mem.arr, m), h.in_seq(nodes, m)), z3.Not(GM_produces(ex, m, src))))))
+    w.add_contract(Contract(
+        f"{MO}:_transpose_reads_from", params={"nodes": Seq(Ref(NODE)), "transpose": Ref(NODE), "members": SetT(Ref(NODE))}, ret=Bool, raises=set(),
+        requires=[("axiom:single_assignment", lambda c: z3.And(structurally_valid(c.ex)))],
+        ensures=[("false_only_if_no_member_produces_the_source", post_reads_from)], props=["C02", "C12"], witnesses=["C02_transpose_dag_family"],
+        note="verified for a set of members (the elementwise-DAG fold); the Add-chain / Add-forest folds pass lists",
+    ))
+
+    # ==================================================================== T6 (elementwise DAG below several transposes): FACTS only
+    def t6_vars(lc):
+        E, TN, t2 = lc["elem_nodes"], lc["transpose_nodes"], lc["t2_node"]
+        if not (isinstance(E, VSet) and isinstance(TN, VSet) and isinstance(t2, VRef)):
+            raise OutOfSubset("T6 variables have unexpected kinds")
+        return E, TN, t2.term
+
+    def same_perm_as(ex, t, p: VSeq):
+        k = z3.Int("k!sp")
+        h0 = hv(ex)
+        return z3.And(perm_len(t, h0) == p.length, z3.ForAll([k], z3.Implies(z3.And(0 <= k, k < p.length), perm_at(t, h0, k) == sel(p.arrs[0], k))))
+
+    def inv_t6_perms(lc):
+        ex = lc.ex
+        p1 = lc["perm1"]
+        visited = lc.idx
+        e = z3.Const("e!p6", N)
+        if isinstance(p1, VNone):
+            known = z3.BoolVal(True)
+            none_ = z3.BoolVal(True)
+            body = z3.Not(z3.Exists([e], sel(visited.arr, e)))
+        else:
+            pv = p1.val if isinstance(p1, VOpt) else p1
+            none_ = p1.isnone if isinstance(p1, VOpt) else z3.BoolVal(False)
+            body = z3.If(none_, z3.Not(z3.Exists([e], sel(visited.arr, e))), z3.ForAll([e], z3.Implies(sel(visited.arr, e), same_perm_as(ex, e, pv))))
+        k = z3.Int("k!vp")
+        valid = z3.BoolVal(True) if isinstance(p1, VNone) else z3.Implies(z3.Not(none_), z3.And(pv.length >= 0, z3.ForAll([k], z3.Implies(z3.And(0 <= k, k < pv.length), z3.And(0 <= sel(pv.arrs[0], k), sel(pv.arrs[0], k) < pv.length)))))
+        return [("still_ok", ex.truthy(lc["ok"])), ("visited_transposes_carry_perm1", body), ("perm1_entries_are_valid_axes", valid)]
+
+    def t6_out_ok(ex, E, perm2: VSeq, n):
+        return z3.Or(sel(E.arr, n), z3.And(sel(ex.heap_arrays(NODE, "op_type")[0], n) == z3.StringVal("Transpose"), same_perm_as(ex, n, perm2)))
+
+    def inv_t6_outs(lc):
+        ex = lc.ex
+        E, TN, t2 = t6_vars(lc)
+        h = H(ex)
+        perm2, OT = lc["perm2"], lc["output_transposes"]
+        e, n = z3.Const("e!o6", N), z3.Const("n!o6", N)
+        visited = lc.idx
+        return [("still_ok", ex.truthy(lc["ok"])),
+                ("consumers_of_visited_dag_outputs_are_dag_nodes_or_inverse_transposes", z3.ForAll([e, n], z3.Implies(z3.And(sel(visited.arr, e), h.in_seq(lc["nodes"], n), h.reads(n, h.out0(e))), t6_out_ok(ex, E, perm2, n)))),
+                ("collected_output_transposes_are_inverse_transposes", z3.ForAll([n], z3.Implies(sel(OT.arr, n), z3.And(sel(ex.heap_arrays(NODE, "op_type")[0], n) == z3.StringVal("Transpose"), same_perm_as(ex, n, perm2)))))]
+
+    def inv_t6_cons(lc):
+        ex = lc.ex
+        E, TN, t2 = t6_vars(lc)
+        perm2, OT = lc["perm2"], lc["output_transposes"]
+        k, n = z3.Int("k"), z3.Const("n!c6", N)
+        return [("still_ok", ex.truthy(lc["ok"])),
+                ("consumers_so_far_are_dag_nodes_or_inverse_transposes", z3.ForAll([k], z3.Implies(z3.And(0 <= k, k < lc.idx), t6_out_ok(ex, E, perm2, sel(lc.seq.arrs[0], k))))),
+                ("collected_output_transposes_are_inverse_transposes", z3.ForAll([n], z3.Implies(sel(OT.arr, n), z3.And(sel(ex.heap_arrays(NODE, "op_type")[0], n) == z3.StringVal("Transpose"), same_perm_as(ex, n, perm2)))))]
+
+    def inv_t6_facts(lc):
+        """loop 13 is the first statement after every guard of the fold: its entry is where the facts the law needs are demanded"""
+        ex = lc.ex
+        if lc.phase != "inv-init":
+            return []
+        E, TN, t2 = t6_vars(lc)
+        h = H(ex)
+        graph, nodes = lc["graph"].term, lc["nodes"]
+        perm1, perm2, OT = lc["perm1"], lc["perm2"], lc["output_transposes"]
+        p1 = perm1.val if isinstance(perm1, VOpt) else perm1
+        e, n, k, m = z3.Const("e!f6", N), z3.Const("n!f6", N), z3.Int("k!f6"), z3.Const("m!f6", N)
+        ins = ex.heap_arrays(NODE, "inputs")
+        x = sel(sel(ins[0], e), k)
+        made = lambda val: z3.Exists([m], z3.And(z3.Or(sel(E.arr, m), sel(TN.arr, m)), GM_produces(ex, m, val)))  # noqa: E731
+        t2_in = in0(ex, t2)
+        if not (isinstance(p1, VSeq) and isinstance(perm2, VSeq)):
+            return [("txn-facts:T6.permutations_known", z3.BoolVal(False))]
+        return [
+            ("txn-facts:T6.every_source_transpose_carries_perm1_and_perm2_inverts_it", z3.And(
+                z3.ForAll([e], z3.Implies(sel(TN.arr, e), z3.And(h.op(e) == z3.StringVal("Transpose"), same_perm_as(ex, e, p1)))),
+                h.op(t2) == z3.StringVal("Transpose"), same_perm_as(ex, t2, perm2), p1.length == perm2.length,
+                z3.ForAll([k], z3.Implies(z3.And(0 <= k, k < perm2.length), sel(p1.arrs[0], sel(perm2.arrs[0], k)) == k)))),
+            ("txn-facts:T6.the_second_transpose_reads_a_closed_elementwise_dag_below_the_source_transposes", z3.And(
+                t2_in != null_of(VALUE), z3.Or(scalar_const(t2_in, hv(ex)), made(t2_in)),
+                z3.ForAll([e], z3.Implies(sel(E.arr, e), z3.And(is_ew(h.op(e)), h.in_seq(nodes, e)))),
+                z3.ForAll([e, k], z3.Implies(z3.And(sel(E.arr, e), 0 <= k, k < sel(ins[1], e)), z3.Or(x == null_of(VALUE), scalar_const(x, hv(ex)), made(x)))))),
+            ("txn-facts:T6.no_source_transpose_reads_a_value_produced_inside_the_dag", z3.ForAll([e], z3.Implies(sel(TN.arr, e), z3.Or(in0(ex, e) == null_of(VALUE),
+                                                                                                                        z3.ForAll([m], z3.Implies(z3.And(sel(E.arr, m), h.in_seq(nodes, m)), z3.Not(GM_produces(ex, m, in0(ex, e))))))))),
+            ("txn-facts:T6.dag_outputs_feed_only_the_dag_or_inverse_transposes", z3.ForAll([e, n], z3.Implies(z3.And(sel(E.arr, e), h.in_seq(nodes, n), h.reads(n, h.out0(e))), t6_out_ok(ex, E, perm2, n)))),
+            ("txn-facts:T6.no_dag_output_is_a_graph_output_or_captured_by_a_nested_body", z3.ForAll([e], z3.Implies(sel(E.arr, e), z3.Not(h.escapes(graph, h.out0(e)))))),
+            ("txn-facts:T6.the_second_transpose_is_one_of_the_collected_output_transposes", sel(OT.arr, t2)),
+        ]
+
+    def inv_t6_lengths(tag):
+        """frame of the unverified T6 effect loops: rewiring never changes how many inputs a node has"""
+        def inv(lc):
+            ex = lc.ex
+            if lc.phase == "inv-init" and tag == "outer":
+                ex.ghost["t6_len_pre"] = ex.heap_arrays(NODE, "inputs")[1]
+            pre = ex.ghost.get("t6_len_pre")
+            if pre is None:
+                return []
+            n = z3.Const("n!l6", N)
+            return [("input_counts_unchanged", z3.ForAll([n], sel(ex.heap_arrays(NODE, "inputs")[1], n) == sel(pre, n)))]
+        return inv
+
     def t7_vars(lc):
         E, t2, T1 = lc["elem_nodes"], lc["t2_node"], lc["T1"]
         if not (isinstance(E, VSet) and isinstance(t2, VRef) and isinstance(T1, VRef)):
@@ -397,7 +558,7 @@ def register(w):
         if lc.phase == "assume":
             ex.events[:] = [e for e in ex.events if not (e and e[0] == "mut")]
             ex.ghost.pop("refreshed", None)
-            for g_ in ("t7_pre", "t7_inner_pre", "t7_shape_pre", "t7_t1_out", "t7_t1_in"):
+            for g_ in ("t7_pre", "t7_inner_pre", "t7_shape_pre", "t7_t1_out", "t7_t1_in", "t6_len_pre"):
                 ex.ghost.pop(g_, None)
             for f in structurally_valid(ex):
                 ex.pc.append(f)
@@ -407,6 +568,10 @@ def register(w):
         if lc.phase != "inv-step" or not E:
             return obl
         loops_ = ex.frames[-1]["loops"]
+        l9 = loops_[9] if len(loops_) > 9 else None
+        if l9 is not None and E[0][-1] is not None and l9.lineno <= E[0][-1] <= l9.end_lineno:
+            ex.assumptions_used.add("T6 (elementwise DAG below several transposes): the facts the rewrite law needs are proved where the rewiring starts; the rewiring, bypass and removal effects themselves are not under contract (bounded stand-in <bounded-T4-T7>)")
+            return obl
         l18 = loops_[18] if len(loops_) > 18 else None
         if l18 is not None and E[0][-1] is not None and l18.lineno <= E[0][-1] <= l18.end_lineno:
             return t7_hook(lc, E, obl)
@@ -504,7 +669,13 @@ def register(w):
         requires=[("valid_graph", lambda c: z3.And([f for _, f in wf(c.ex, c["graph"].term)]))],
         loops={0: LoopSpec(invariant=hook, label="transactions"),
                1: LoopSpec(assumed_summary="Add-chain " + SUMMARY, keep=("changed", "nodes"), label="T5"),
-               9: LoopSpec(assumed_summary="elementwise-DAG " + SUMMARY, keep=("changed", "nodes"), label="T6"),
+               9: LoopSpec(heap_unchanged=True, label="T6-scan"),
+               10: LoopSpec(invariant=inv_t6_perms, heap_unchanged=True, label="T6-perms", types={"perm1": Opt(Seq(Int)), "perm": Opt(Seq(Int))}),
+               11: LoopSpec(invariant=inv_t6_outs, heap_unchanged=True, label="T6-dag-outputs", types={"perm": Opt(Seq(Int))}),
+               12: LoopSpec(invariant=inv_t6_cons, heap_unchanged=True, label="T6-consumers", types={"perm": Opt(Seq(Int))}),
+               13: LoopSpec(invariant=inv_t6_facts, heap_unchanged=True, label="T6-facts"),
+               14: LoopSpec(invariant=inv_t6_lengths("outer"), label="T6-rewire"), 15: LoopSpec(invariant=inv_t6_lengths("inner"), label="T6-rewire-inputs"),
+               16: LoopSpec(invariant=inv_t6_lengths("bypass"), label="T6-bypass"), 17: LoopSpec(invariant=inv_t6_lengths("drop"), label="T6-drop-sources"),
                18: LoopSpec(heap_unchanged=True, label="T7-scan"),
                19: LoopSpec(invariant=inv_t7_cons, heap_unchanged=True, label="T7-consumers-of-T1"),
                20: LoopSpec(invariant=inv_t7_outs, heap_unchanged=True, label="T7-dag-outputs"),
@@ -516,7 +687,7 @@ def register(w):
                26: LoopSpec(invariant=inv_chain, heap_unchanged=True, label="chain"),
                27: LoopSpec(invariant=inv_refresh, ghost_havoc=ghost_havoc_refresh, label="refresh"),
                28: LoopSpec(invariant=inv_direct, heap_unchanged=True, label="direct")},
-        local_types={"chain_nodes": Seq(Ref(NODE)), "allowed_nodes": Seq(Ref(NODE))},
+        local_types={"chain_nodes": Seq(Ref(NODE)), "allowed_nodes": Seq(Ref(NODE)), "output_transposes": SetT(Ref(NODE)), "trans_in_map": MapT(Ref(VALUE), Ref(VALUE))},
         track_alloc=True, deep_feasibility=True, ret=NoneT, props=["C02", "C08", "C12"], opaque_externals=True, witnesses=["C02_transpose_pair_family", "C02_transpose_dag_family"],
         modifies=[(NODE, "inputs"), (GRAPH, "nodes"), (GRAPH, "outputs"), (VALUE, "shape")],
     ))
